@@ -98,7 +98,16 @@ func nwShift(v uint64) uint64 {
 	return uint64(r)
 }
 
-const nwKeyID = `{"prins":["u"],"transID":"t","reqUser":"u","reqIP":"1.1.1.1","reqHost":"h","isFirefighter":false,"isHWKey":false,"isHeadless":false,"isNonce":false,"usage":0,"touchPolicy":1,"ver":1}`
+// nwKeyIDText: natively, the real KeyID text with the attributes of mwKeyIDTemplate
+func nwKeyIDText() string {
+	k := mwKeyIDTemplate
+	k.Principals, k.ReqUser, k.ReqIP, k.ReqHost = []string{"u"}, "u", "1.1.1.1", "h"
+	s, err := k.Marshal()
+	if err != nil {
+		panic("nwKeyIDText: " + err.Error())
+	}
+	return s
+}
 
 // mwPlainKey: the public key with the given id (a model object, or a real key natively).
 func mwPlainKey(id int) ssh.PublicKey {
@@ -166,7 +175,7 @@ func mwNewCert(keyID int, va, vb uint64, decodes bool) *ssh.Certificate {
 		c = &ssh.Certificate{Key: mwPlainKey(keyID), ValidAfter: nwShift(va), ValidBefore: nwShift(vb), KeyId: "not a key id", CertType: ssh.UserCert,
 			Nonce: []byte{byte(len(mwCerts))}, Serial: uint64(len(mwCerts))}
 		if decodes {
-			c.KeyId = nwKeyID
+			c.KeyId = nwKeyIDText()
 		}
 		if mwPadKeyID {
 			c.KeyId += "\n"
@@ -231,9 +240,14 @@ func mwParsePublicKey(in []byte) (ssh.PublicKey, error) {
 	return nil, errors.New("model: unknown key blob")
 }
 
+// mwKeyIDTemplate: what a decoding KeyID says (a harness may make the
+// attributes arbitrary; by default a plain never-touch KeyID)
+var mwKeyIDTemplate = keyid.KeyID{Version: 1, TransID: "t", TouchPolicy: keyid.NeverTouch}
+
 func mwKeyIDUnmarshal(s string) (*keyid.KeyID, error) {
 	if strings.TrimSpace(s) == "Y" {
-		return &keyid.KeyID{Version: 1, TransID: "t", TouchPolicy: keyid.NeverTouch}, nil
+		k := mwKeyIDTemplate
+		return &k, nil
 	}
 	return nil, errors.New("model: not a YSSHCA KeyID")
 }
